@@ -13,8 +13,13 @@ class BQLSemantics:
     def set_context(self, ctx):
         self._ctx = ctx
 
+    # TatSu drops None values when it collects the items of a
+    # repetition: a NULL element of a list literal is carried by this
+    # marker until the list, or the constant, is built.
+    NULL = object()
+
     def null(self, value):
-        return None
+        return self.NULL
 
     def integer(self, value):
         return int(value)
@@ -49,7 +54,7 @@ class BQLSemantics:
         return ast.Asterisk()
 
     def list(self, value):
-        return list(value)
+        return [None if item is self.NULL else item for item in value]
 
     def ordering(self, value):
         return ast.Ordering[value or 'ASC']
@@ -57,7 +62,7 @@ class BQLSemantics:
     def _default(self, value, typename=None):
         if typename is not None:
             func = getattr(ast, typename)
-            return func(**{name.rstrip('_'): value for name, value in value.items()})
+            return func(**{name.rstrip('_'): None if value is self.NULL else value for name, value in value.items()})
         return value
 
 
